@@ -117,6 +117,24 @@ theorem barrier_leaves_nothing_cached (n : Nat) (hn : 0 < n) (ls : List (Label N
   rw [held_quiet _ s' hq] at this
   simpa using this
 
+/-- the same at the label `bar`: whenever `barrier()` can return on a rank, its cache is empty
+and everything inserted before has been emitted — nothing stays cached past a barrier -/
+theorem barrier_return_quiet (n : Nat) (hn : 0 < n) (ls : List (Label Nat)) (s₁ s' : St Nat)
+    (h : run (csetCfg n) .init ls = some s₁) (hb : step (csetCfg n) s₁ .bar = some s') (k : Key) :
+    s' = s₁ ∧ quiet s' ∧ ownerCount (emitted (csetCfg n) .init ls) k = (valsOf k (received ls)).sum := by
+  simp only [step] at hb
+  split at hb
+  · rename_i hc
+    have hs : s₁ = s' := Option.some.inj hb
+    subst hs
+    have hidle : s₁.stack = [] := by
+      cases hst : s₁.stack with
+      | nil => rfl
+      | cons a b => rw [hst] at hc; simp at hc
+    obtain ⟨hq, hcount⟩ := barrier_leaves_nothing_cached n hn ls s₁ h hidle hc.2 k
+    exact ⟨rfl, hq, hcount⟩
+  · cases hb
+
 /-! ### all ranks together and the owner-side fold -/
 
 /-- the histories of all ranks, each ending quiet (barrier completed everywhere) -/
